@@ -25,9 +25,10 @@ call `needs_recompile` again (`None => LockFile::wait_for_removal(..)?` falls th
 Nobody but the owner removes a lock file; a lock whose owner died stays forever.
 
 Time is abstract: a waiter gives up at its `K`-th poll that still sees the lock
-(`K` stands for "30 s of polling").  `Variant.recheck` is the protocol of
-`fixes/C19-recheck-and-steal.diff` (a waiter re-runs the staleness check when the lock is gone and
-removes a lock that outlived the timeout); `Variant.orig` is the unchanged tree.
+(`K` stands for "30 s of polling").  `Variant.recheck` (the default) is the protocol committed to
+/repo in 8957f32 (a waiter re-runs the staleness check when the lock is gone and removes a lock that
+outlived the timeout); `Variant.orig` is the protocol before that fix: there a waiter whose poll
+finds the lock gone goes straight to `load`, and a timeout is an error.
 -/
 namespace TsVerif.C19
 
@@ -78,7 +79,8 @@ structure Cfg where
   K : Nat
   /-- may `cc` fail and return (sources that do not compile)? -/
   mayFail : Bool
-  variant : Variant := .orig
+  /-- the protocol in /repo since 8957f32 is `recheck`; `orig` is kept for the refutations -/
+  variant : Variant := .recheck
   deriving DecidableEq, Repr, Inhabited
 
 structure Proc where
